@@ -8,6 +8,7 @@ CONSTANTS
   Wnds = {2, 8}
   Variant = "code"
   EmitOps = TRUE
+  EmitEvery = 10
 INVARIANT StateInv
 PROPERTY Refines
 ACTION_CONSTRAINT EmitAC
